@@ -1818,6 +1818,11 @@ func (m *mctx) store(lhs ast.Expr, val string, ind string) string {
 					n := leanIdent(id.Name)
 					return fmt.Sprintf("%slet %s := GoSem.mapSet %s %s %s;\n", ind, n, n, m.atom(ix.Index), atomOf(val))
 				}
+				if _, isSl := tv.Type.Underlying().(*types.Slice); isSl {
+					// `xs[i] = v` on a local slice. NOT represented: Go panics when i is out of range; `setIdx` then changes nothing
+					n := leanIdent(id.Name)
+					return fmt.Sprintf("%slet %s := GoSem.setIdx %s %s %s;\n", ind, n, n, m.atom(ix.Index), atomOf(val))
+				}
 			}
 		}
 		if fs, ok := ix.X.(*ast.SelectorExpr); ok && m.isRecv(fs.X) {
